@@ -2,9 +2,9 @@ package harness
 
 import (
 	"context"
+	"fmt"
 	"os"
 	"path/filepath"
-	"fmt"
 	"time"
 
 	"github.com/klev-dev/klevdb"
